@@ -21,7 +21,7 @@ func parseModel(s string) map[string]string {
 	for _, pair := range splitSexpArgs("(x " + strings.TrimSuffix(strings.TrimPrefix(s, "("), ")") + ")")[1:] {
 		kv := splitSexpArgs(pair)
 		if len(kv) == 2 {
-			out[kv[0]] = kv[1]
+			out[kv[0]] = expandLets(kv[1])
 		}
 	}
 	return out
@@ -187,6 +187,9 @@ func (g *replayGen) goLit(v string, t types.Type) (string, error) {
 				var offN, lenN int
 				fmt.Sscan(off, &offN)
 				fmt.Sscan(ln, &lenN)
+				if offN < 0 {
+					return "(" + g.typeStr(t) + ")(nil)", nil // offset -1 encodes the nil slice
+				}
 				if lenN >= 0 && lenN <= 4096 {
 					elems, def, err := arrayModel(args[1])
 					if err == nil {
@@ -313,7 +316,7 @@ func (g *replayGen) smtPrinter(expr string, t types.Type, depth int) (string, bo
 			return "", false
 		}
 		so := g.sorts.SortOf(t)
-		return fmt.Sprintf("\"(mk_%s \" + vpArray(len(%s), %q, %q, func(vpi int) string { return %s }) + fmt.Sprintf(\" 0 %%d %%d)\", len(%s), cap(%s))", so, expr, g.sorts.SortOf(u.Elem()), g.sorts.Zero(u.Elem()), ep, expr, expr), true
+		return fmt.Sprintf("\"(mk_%s \" + vpArray(len(%s), %q, %q, func(vpi int) string { return %s }) + fmt.Sprintf(\" %%s %%d %%d)\", vpOff(%s == nil), len(%s), cap(%s))", so, expr, g.sorts.SortOf(u.Elem()), g.sorts.Zero(u.Elem()), ep, expr, expr, expr), true
 	case *types.Interface:
 		if g.sorts.SortOf(t) == "Err" {
 			return fmt.Sprintf("vpErr(%s)", expr), true
@@ -456,6 +459,7 @@ func replayImpl(w *World, root string, rep *OblReport, workDir string) (string, 
 	b.WriteString(")\n\nfunc vpSigned(x int64) string {\n\tif x < 0 {\n\t\tif x == -9223372036854775808 {\n\t\t\treturn \"(- 9223372036854775808)\"\n\t\t}\n\t\treturn fmt.Sprintf(\"(- %d)\", -x)\n\t}\n\treturn fmt.Sprint(x)\n}\n\n")
 	b.WriteString("func vpArray(n int, es, zero string, at func(int) string) string {\n\ts := \"((as const (Array Int \" + es + \")) \" + zero + \")\"\n\tfor i := 0; i < n; i++ {\n\t\ts = \"(store \" + s + \" \" + fmt.Sprint(i) + \" \" + at(i) + \")\"\n\t}\n\treturn s\n}\n\n")
 	b.WriteString("func vpHex(b []byte) string { return fmt.Sprintf(\"%x\", b) }\n\n")
+	b.WriteString("func vpOff(isNil bool) string {\n\tif isNil {\n\t\treturn \"(- 1)\"\n\t}\n\treturn \"0\"\n}\n\n")
 	b.WriteString("func vpErr(e error) string {\n\tif e == nil {\n\t\treturn \"err_nil\"\n\t}\n\treturn \"vp_some_err\"\n}\n\n")
 	b.WriteString("func TestVerifReplay(t *testing.T) {\n\tdefer func() {\n\t\tif r := recover(); r != nil {\n\t\t\tfmt.Printf(\"VERIF-REPLAY-PANIC %v\\n\", r)\n\t\t}\n\t}()\n")
 	b.WriteString(body.String())
